@@ -49,7 +49,8 @@ ASSUMPTIONS = [
     "parameter rows of the data array are constant over columns (the pseudo-function expansion shifts parameter names too)",
     "nested powers and negative exponents are always parenthesised (a^b^c has no documented associativity)",
     "substituted sub-expressions are parenthesised at the definition or at the use site unless the position makes it unnecessary (substitution is textual)",
-    "descriptions use letters, digits, spaces and . , : ; ( ) - + * / = % # & ' and '...', never \" < > { } ! ` $ ?; comment text never contains braces",
+    "descriptions use letters, digits, spaces and . , : ; ( ) - + * / = % # & ' and '...', never \" < > { } ! ` $ ?; comment text never contains braces; "
+    "a description may be spelled \"{{ name }}\" with the text in a context string (the template stage the repository's own tests use)",
     "order of equations within a kind is accepted in any permutation that matches all values; declaration order within a kind is not judged",
     "descriptions of the automatic ant_/std_ companions are not judged, only their names and kinds",
     "!for control names are chosen so that none is a prefix of another live control name; ?{x}/?[x] upper/lower forms are not generated",
@@ -565,6 +566,10 @@ class Renderer:
         self.flags = {"flag_a": self.ch.of([True, False]), "num_b": self.ch.pick(6), "mode_c": self.ch.of(["abc", "xyz"])}
         self.nctx = 0
         self.pf_shifted_arg = False
+        # an independent stream for the Jinja spelling of descriptions (keeps the other streams, and with them the
+        # stored replay cases, as they were)
+        self.cj = _Chooser([7 * x + 3 for x in recipe["noise"]])
+        self.njj = 0
 
     # ---- whitespace and comments ---------------------------------------------
     def _comment_text(self):
@@ -885,6 +890,13 @@ class Renderer:
         text = ex.fill_name(text, c["bound"])
         if not text:
             return '""' + self.gs() if self.ch.chance(1, 10) else ""
+        if self.level and not self.inject.get("no_bang") and self.cj.chance(1, 4):
+            # the text comes from a context string through the template stage ({{ name }}), which runs first
+            key = f"jdesc{self.njj}"
+            self.njj += 1
+            self.context[key] = text
+            self.labels.add("jinja_description")
+            text = "{{" + self.cj.of(["", " "]) + key + self.cj.of(["", " ", "  "]) + "}}"
         return '"' + text + '"' + (self.gs() if entry or self.level else " ")
 
     def _version(self, pair, c):
